@@ -306,6 +306,11 @@ func unmarshalObject(dec *msgpack.Decoder, atys map[string]cty.Type, path cty.Pa
 		if !exists {
 			return cty.DynamicVal, path.NewErrorf("unsupported attribute")
 		}
+		if _, dup := vals[key]; dup {
+			// The entry count matches the attribute count, so a repeated
+			// key means that some other attribute is missing.
+			return cty.DynamicVal, path.NewErrorf("duplicate attribute")
+		}
 
 		val, err := unmarshal(dec, aty, path)
 		if err != nil {
